@@ -52,10 +52,12 @@ def _re_atom(pat, i, groups):
     c = pat[i]
     if c == '\\':
         d = pat[i + 1]
-        if d in 'dws':
+        if d in 'dwsDWS':
             return {'e': 'cls', 's': d}, i + 2
         if d == 'b':
             return {'e': 'wb'}, i + 2
+        if d == 'B':
+            return {'e': 'nwb'}, i + 2
         if d in _SPECIAL or d in '-#/ :,\'"&%@!=<>~`;_':
             if ord(d) > 127:
                 raise ValueError
@@ -118,7 +120,7 @@ def _re_seq(pat, i, top, groups, stop=''):
             raise ValueError
         atom, i = _re_atom(pat, i, groups)
         if i < len(pat) and pat[i] in '*+?':
-            if atom['e'] == 'wb':
+            if atom['e'] in ('wb', 'nwb'):
                 raise ValueError
             q = {'*': 'star', '+': 'plus', '?': 'opt'}[pat[i]]
             i += 1
